@@ -18,7 +18,7 @@ class Contract:
     posts: {label: fn(S,a,r)->Bool}.  raises: exception type names that may escape (assumed possible at call sites,
     every other escaping exception is an obligation).  pure: results are function symbols of the arguments."""
     def __init__(self, qual, params, result, posts, pre=None, raises=(), pure=False, loops=(), props=None,
-                 inline_closures=False, assumed=None, exc_posts=None, setup=None, note='', effects=(), effects_only_if=None):
+                 inline_closures=False, assumed=None, exc_posts=None, setup=None, note='', effects=(), effects_only_if=None, opts=None):
         self.qual, self.params, self.result, self.posts, self.pre = qual, params, result, posts, pre
         self.raises, self.pure, self.props, self.inline_closures = tuple(raises), pure, props or {}, inline_closures
         self.loops = list(loops)
@@ -26,6 +26,7 @@ class Contract:
         self.exc_posts = exc_posts or {}
         self.setup = setup
         self.note = note
+        self.opts = opts or {}
         self.effects = tuple(effects)            # effect atoms of a call to this function (recorded on the caller's path)
         self.effects_only_if = effects_only_if   # fn(S,a)->Bool: every path of THIS function that performs an effect must satisfy it
         self.short = qual.split(':')[1]
@@ -56,7 +57,10 @@ class Contract:
                 # constructor contract: result shape is ('obj', cls, fields)
                 pass
             for q1, r1 in ex.split_opt(q, r):
-                post = [f(S, ns, r1) for f in self.posts.values()]
+                try:
+                    post = [f(S, ns, r1) for f in self.posts.values()]
+                except (AssertionError, AttributeError, TypeError, IndexError):
+                    post = []             # ill-shaped arguments: nothing is known about the result (the pre-obligation has already failed)
                 q1.pc = q1.pc + [x for x in post if not z3.is_true(x)]
                 if ex.feasible(q1.pc): outs.append((q1, r1))
         for t in self.raises:
@@ -107,7 +111,7 @@ def verify_function(prog, reg, c, labels=None, opts=None, timeout_ms=20000):
     rep = FunctionReport(c.qual)
     t0 = time.time()
     S = Sym()
-    ex = sx.Exec(prog, reg, S, opts)
+    ex = sx.Exec(prog, reg, S, dict(opts or {}, **getattr(c, 'opts', {})))
     ex.effects = []
     ex.effect = lambda kind, node, p, **kw: _record_effect(ex, kind, node, p, kw)
     ex.cur, ex.cur_short, ex.cur_contract = c.qual, c.short, c
@@ -161,8 +165,9 @@ def verify_function(prog, reg, c, labels=None, opts=None, timeout_ms=20000):
             elif kind == 'exc':
                 if not any(sx.exc_matches(v.typ, t) is True for t in c.raises):
                     ex.oblige(f'raises_only{list(c.raises)}/{v.typ}@L{v.where}', q.pc, z3.BoolVal(False), kind='raise', trace=q.trace)
-                else:
-                    extra = c.exc_posts.get(v.typ)
+                elif isinstance(v.msg, VStr):
+                    # an exception the contract allows: its message must be non-empty (C14: invalid objects carry a non-empty error)
+                    ex.oblige(f'error_message_nonempty/{v.typ}@L{v.where}', q.pc, S.str_nonempty(v.msg), kind='raise_msg', trace=q.trace)
             else:
                 raise sx.Unsupported(f'{kind} escaping function body')
     except sx.Unsupported as e:
